@@ -6,7 +6,7 @@ import tempfile
 from collections import defaultdict
 
 from engine import REPO, gen_states, pool_map
-from readers import join_lines, gaf_record, read_text, run_cli, write_text, workdir, lines_of
+from readers import read_out, join_lines, gaf_record, read_text, run_cli, write_text, workdir, lines_of
 
 EXTRA = ["tp:A:P", "NM:i:-3", "zd:Z:a:b c#1"]
 
@@ -115,7 +115,7 @@ def run_graph(job):
                 break
         cases = []
         if status == "ok":
-            S, U2, S2 = (lines_of(open(x).read()) for x in (s, u2, s2))
+            S, U2, S2 = (lines_of(read_out(x)) for x in (s, u2, s2))
             if not (len(S) == len(U2) == len(S2) == len(lines)):
                 status = "record_count"
         for wid, w, a, b in spans:
